@@ -19,7 +19,7 @@ DOC = {
         'C04.M': __import__('fcverif.rules.common', fromlist=['MANDATORY_TEXT']).MANDATORY_TEXT,
         'C04.R1': 'run_dedupe: on every path to dedupe(..) modified_before is Some (defaulted from header.timestamp, never cleared)',
         'C04.R2': 'partition: every path to Ok(PartitionedFileGroup) passes was_modified(files, timestamp) unless modified_before is None; its true edge returns Err; the files checked are the files grouped',
-        'C04.R3': 'was_modified: relation is mtime > after (or >=), an unreadable mtime yields true, the answer is never reset to false, all files are examined',
+        'C04.R3': 'was_modified: relation is mtime > after (or >=) with the resolution of the stored time stamp added to the file time (whole-second time stamps), an unreadable mtime yields true, the answer is never reset to false, all files are examined',
         'C04.R4': 'the length filter is skipped only under no_check_size; run_dedupe sets it only via |= transform.is_some(); the regular-file filter is unconditional',
         'C04.R5': 'fetch_files_metadata: try_map_all fails iff any element failed; the failure discards the group',
         'C04.R7': 'the metadata the staleness tests run on follow symbolic links (fs::metadata), so the time stamp that was_modified compares also covers the link itself: the compared value derives from an lstat (symlink_metadata / link_metadata) of the path as well - a member replaced by a symlink to an old file of the same length after the report is seen as modified',
@@ -235,6 +235,16 @@ def r3(ctx):
         eff = rel if sets_true_t and not sets_true_f else ({'<': '>=', '<=': '>', '>': '<=', '>=': '<'}.get(rel, rel) if sets_true_f and not sets_true_t else None)
         ctx.check(eff in ('>', '>='), rule, P + '|relation', b.where(cmp.line), 'modified iff mtime %s after' % eff,
                   'the answer is set to true when mtime %s after (expected mtime > after)' % eff)
+    # the stored mtime can be much coarser (1 s, 2 s) than the millisecond time stamp of the report: a write made after `after` within the same
+    # tick is stored with an EARLIER time.  The comparison has to allow for that: the file-time operand carries an added resolution that is
+    # chosen from the sub-second part of the stored time.
+    msl = backslice(b, [cmp.a]) if backslice(b, [cmp.a]).has_call(r'Metadata::modified$') else backslice(b, [cmp.b])
+    added = [c for c in msl.calls if c.matches(r'as std::ops::(Add|Sub)<.*>>::(add|sub)$|::checked_(add|sub)(_signed)?$')]
+    sub = [c for c in b.calls(r'subsec_(nanos|micros|millis)$|::nanosecond$|timestamp_subsec')]
+    ctx.check(bool(added) and bool(sub), rule, P + '|resolution', b.where(cmp.line), 'the compared file time includes the resolution of the stored time stamp (whole-second time stamps get a slack)',
+              'the stored mtime is compared with the millisecond time stamp of the report as it is: on a file system that keeps whole seconds (ext3, ext4 with 128-byte inodes, HFS+, NFS/SMB servers; '
+              'FAT: 2 s) a write made after `fclones group` started, but within the same second, is stored with a time BEFORE the report time stamp - the group is processed on the stale belief and '
+              'the only file still holding the original bytes is removed')
     # the comparison is between instants, not wall-clock readings in possibly different UTC offsets
     tys = []
     if isinstance(cmp.site, Call):
